@@ -13,7 +13,7 @@ for p in selftest/mutants/*${1}*.patch; do
   (cd /repo && git diff HEAD) | (cd "$scratch/repo" && git apply -q 2>/dev/null)
   for f in $(cd /repo && git ls-files --others --exclude-standard); do mkdir -p "$scratch/repo/$(dirname $f)"; cp "/repo/$f" "$scratch/repo/$f"; done
   if ! (cd "$scratch/repo" && git apply "$OLDPWD/$p" 2>/dev/null); then echo "SELFTEST $p: patch does not apply"; fail=$((fail+1)); git -C /repo worktree remove --force "$scratch/repo"; rm -rf "$scratch" "$vscratch"; continue; fi
-  for f in props.json known_findings.json contracts-lib lemmas bounded oracles; do [ -e "$f" ] && ln -s "$PWD/$f" "$vscratch/$f"; done
+  for f in props.json known_findings.json contracts-lib lemmas bounded oracles hints; do [ -e "$f" ] && ln -s "$PWD/$f" "$vscratch/$f"; done
   out=$(./bin/govc check -repo "$scratch/repo" -verif "$vscratch" -prop "$prop" -tier quick 2>&1); code=$?
   if [ $code -eq 1 ] && echo "$out" | grep -q "VIOLATION.*$expect"; then echo "SELFTEST ok   $p ($prop: $(echo "$out" | grep -c VIOLATION) violation(s))"; pass=$((pass+1));
   else echo "SELFTEST MISS $p (exit $code, expected obligation ~ $expect)"; echo "$out" | tail -5 | sed 's/^/    /'; fail=$((fail+1)); fi
